@@ -36,7 +36,7 @@ def shards(tier):
 
 def required_classes(tier):
     out = ["av:" + p for p in PERTS if p not in ("identity-key",)] + ["fav:" + p for p in ("sig-length", "key-plus-torsion", "honest", "drop-signer", "dup-signer", "subst-key", "empty", "empty-infinity", "bad-key", "sk-and-r-sk", "negated", "other-message")]
-    out += ["msg:starts-with-own-pk", "agg:multiplicity", "agg:sum", "agg:permutation", "agg:bracketing", "agg:refuse", "agg:undecodable", "suite:basic", "suite:aug", "suite:pop", "n>=2"]
+    out += ["mutable-list-reused", "msg:starts-with-own-pk", "agg:multiplicity", "agg:sum", "agg:permutation", "agg:bracketing", "agg:refuse", "agg:undecodable", "suite:basic", "suite:aug", "suite:pop", "n>=2"]
     return out
 
 
@@ -101,6 +101,21 @@ def run(rec):
                          [sigs[0], Z.enc_g2(E2.neg(Z.dec_g2(sigs[0])))], [inf_sig, sigs[0], inf_sig]):
             rec.case("agg:multiplicity", ("aggm", tuple(rep_list)), sample={"fn": "Aggregate", "suite": suite, "entries": len(rep_list), "distinct": len(set(rep_list))})
             call(S.Aggregate, list(rep_list))
+        # the same list OBJECTS passed again after they were changed in place
+        lst = list(sigs)
+        kl, ml = list(pks), list(msgs)
+        rec.case("mutable-list-reused", ("mutlist", tuple(sigs)), sample={"fn": "Aggregate / AggregateVerify", "what": "list argument changed in place between consecutive calls"})
+        call(S.Aggregate, lst)
+        call(S.AggregateVerify, kl, ml, agg)
+        lst.append(sigs[0]); lst[0] = e1
+        call(S.Aggregate, lst)
+        if n >= 2:
+            kl[0], kl[1] = kl[1], kl[0]
+            call(S.AggregateVerify, kl, ml, agg)
+            ml[0], ml[1] = ml[1], ml[0]
+            call(S.AggregateVerify, kl, ml, agg)
+        kl.pop(); ml.pop()
+        call(S.AggregateVerify, kl, ml, agg)
         vals = {o[1] if o[0] == "ok" else repr(o[1]) for o in outs}
         rec.check("B-c03.order", len(vals) == 1, "agg", "Aggregate depends on order / grouping of its inputs", case={"fn": "Aggregate", "sigs": sigs, "suite": suite},
                   facts={"fn": "Aggregate", "kind": "order-dependence"})
